@@ -932,7 +932,27 @@ func r078(c *Ctx, r *R) {
 				r.Check(types.Identical(at, in), "arg:"+key, s.Call.Pos(), "argument type "+types.TypeString(at, shortQual)+" is the endpoint's", fmt.Sprintf("%s.%s is called with an argument of type %s where the endpoint takes %s: gorpc refuses the call at run time (or decodes garbage remotely) and the operation does not happen", t.Svc, t.Method, types.TypeString(at, shortQual), types.TypeString(in, shortQual)))
 			}
 			if strings.HasPrefix(s.Kind, "Multi") {
-				continue // replies are a []interface{} built by rpcutil helpers
+				// replies are a []interface{} built by an rpcutil helper:
+				// the element types are read off the helper (what it
+				// wraps into each interface slot)
+				if hc, _ := originCall(args[ri]); hc != nil {
+					if h := hc.Common().StaticCallee(); h != nil && h.Blocks != nil {
+						var ets []types.Type
+						instrs(h, func(i ssa.Instruction) {
+							if st, ok := i.(*ssa.Store); ok {
+								if _, isIdx := st.Addr.(*ssa.IndexAddr); isIdx {
+									if mi, ok := st.Val.(*ssa.MakeInterface); ok {
+										ets = append(ets, mi.X.Type())
+									}
+								}
+							}
+						})
+						for _, et := range ets {
+							r.Check(types.Identical(et, out), "reply:"+key, s.Call.Pos(), "each reply slot built by "+h.Name()+" has the endpoint's reply type "+types.TypeString(et, shortQual), fmt.Sprintf("%s.%s is broadcast with reply slots of type %s (built by %s) where the endpoint writes %s", t.Svc, t.Method, types.TypeString(et, shortQual), h.Name(), types.TypeString(out, shortQual)))
+						}
+					}
+				}
+				continue
 			}
 			if rt, ok := operand(args[ri]); ok {
 				r.Check(types.Identical(rt, out), "reply:"+key, s.Call.Pos(), "reply type "+types.TypeString(rt, shortQual)+" is the endpoint's", fmt.Sprintf("%s.%s is called with a reply of type %s where the endpoint writes %s", t.Svc, t.Method, types.TypeString(rt, shortQual), types.TypeString(out, shortQual)))
